@@ -83,6 +83,7 @@ type Func struct {
 	Export   bool
 	Callback bool
 	Info     bool
+	OptsRev  bool   // the dig options are passed in the reverse of the harness's usual order
 	FlatN    int    // element count for a positional flatten result
 	Decl     string `json:",omitempty"` // name of a declared pool function to use instead of reflect.MakeFunc
 }
@@ -192,7 +193,10 @@ func (f *Func) RLeaves() []RLeaf {
 				// to inherit here.
 			}
 			types := []string{typ}
-			if len(f.As) > 0 {
+			// dig.As is documented as not meant for result objects; where it
+			// is accepted anyway it re-keys the plain fields only, a
+			// group-tagged field keeps its own element type (DESIGN §3.6-9).
+			if len(f.As) > 0 && (top || group == "") {
 				types = append([]string{}, f.As...)
 			}
 			var keys []Key
